@@ -50,11 +50,32 @@ class ExprProp(Prop):
 
 
 class C06(ExprProp):
-    """Theorems (Props/C06.lean): for every well-formed expression and every admissible layout of blanks the parser model yields a tree that represents it (`C06_parse_render`, any length, nesting, calls), the evaluator returns its denotation (`C06_query`), layouts do not matter, parentheses work anywhere. Correspondence: all operator sequences up to five with every parenthesisation and layout (also with the `**` spelling of power), random deeper expressions; results and tree shapes compared."""
+    """Theorems (Props/C06.lean): for every well-formed expression and every admissible layout of blanks the parser model yields a tree that represents it (`C06_parse_render`, any length, nesting, calls), the evaluator returns its denotation (`C06_query`), layouts do not matter, parentheses work anywhere. Correspondence: all operator sequences up to five with every parenthesisation and layout (also with the `**` spelling of power), random deeper expressions; results and tree shapes compared. Full language (Props/FullQuery.lean): `C06_query_full` — two admissible layouts of the same expression of the FULL language (units, facts, casts, nested calls, percent, temperatures) give the same result and log."""
     id = "C06"
     needs_knobs = ("op",)
     module = "Anything.Props.C06"
+    extra_modules = ["Anything.Props.FullQuery"]
     trusted = ["Spec.Arith (precedence table, WF, renderer) is human input"]
+
+    def prepare(self, cases, impl_lines):
+        # layout independence on the FULL language: all renderings of one token list must answer alike
+        self._group = {}
+        for c, im in zip(cases, impl_lines):
+            g = getattr(c, "group", None)
+            if g is not None:
+                self._group.setdefault(g, (c.text, self.observable(im)))
+
+    def spec_verdict(self, case, impl, spec):
+        g = getattr(case, "group", None)
+        if g is not None:
+            if impl.startswith("PANIC") or impl.startswith("ABORT"):
+                return "panic"
+            first = getattr(self, "_group", {}).get(g)
+            if first and self.observable(impl) != first[1]:
+                return (f"the same expression under two layouts of blanks answers differently: {first[0]!r} -> {first[1][:80]}, "
+                        f"{case.text!r} -> {self.observable(impl)[:80]}")
+            return None
+        return super().spec_verdict(case, impl, spec)
 
     def cases(self, rng, tier):
         items = []
@@ -79,6 +100,27 @@ class C06(ExprProp):
             e = G.rand_expr(rng, rng.range(2, 5), calls=True)
             items.append((e, G.layout_for(e, rng, rng.choice(["canon", "tight", "random"])), "random-deep"))
         cases = expr_cases(items, starstar=True)
+        # the FULL language (quantities, temperatures, fact phrases, casts, calls, percentages, nested
+        # and mixed): every expression is rendered with single spaces and under three random layouts
+        # of blanks (kind and number wherever a blank stands; presence where it provably does not
+        # matter); all renderings must answer alike, and each is compared with the model
+        from . import mixgen as M
+        for gi in range(500 if tier == "quick" else 12000):
+            toks = M.expr(rng, rng.range(0, 2))
+            texts = [M.canonical(toks)] + [M.render(toks, rng) for _ in range(3)]
+            for t in dict.fromkeys(texts):
+                c = Case("query " + C.hexs(t), "mixed-language", t)
+                c.group = gi
+                cases.append(c)
+        # a percentage may be written with blanks between the number and the `%`: any kind and number
+        for b_ in ["", " ", "  ", "\t", "\u00a0", "\u202f", "\u2003", "\u000b", " \u00a0", "\u00a0 ", "\n", "\u3000", "\u0085"]:
+            for num, val in (("50", "1/2"), ("-2.5", "-1/40"), ("1e2", "1/1"), ("0", "0/1")):
+                t = num + b_ + "%"
+                cases.append(Case("query " + C.hexs(t), "percent-blank", t, expect=val))
+                t2 = "3 * " + num + b_ + "%" + b_ + " + 1"
+                from fractions import Fraction as _F
+                w = 3 * _F(val) + 1
+                cases.append(Case("query " + C.hexs(t2), "percent-blank", t2, expect=f"{w.numerator}/{w.denominator}"))
         # long chains (hundreds of operands, groups sprinkled in) under random blank runs: grouping
         # and blank-independence do not wear off with length. Expected value: Python integers on the
         # same text with every blank run replaced by one space.
@@ -134,6 +176,13 @@ class C06(ExprProp):
             for _ in range(3):
                 v = words[0] + "".join((rng.choice(seps) if rng.chance(2, 3) else " ") + w for w in words[1:])
                 if v != p_:
+                    lines.append("query " + C.hexs(v) + " describe")
+                    owner.append((p_, v))
+            if len(lines) % 5 == 0 or p_ in self.FILLER_PHRASES:
+                # the NUMBER of blanks: long runs (a run is one token for the lexer, but the phrase
+                # reaches the index as typed)
+                for run in (rng.choice([7, 10, 16, 31, 32, 33]), rng.choice([63, 64, 65, 100, 127, 128, 129, 255, 256, 257, 1000])):
+                    v = (rng.choice([" ", "\t"]) * run).join(words)
                     lines.append("query " + C.hexs(v) + " describe")
                     owner.append((p_, v))
         rc, out, err = C.run_lines(C.harness_bin(False), lines, watchdog=20)
@@ -207,10 +256,10 @@ class C01(ExprProp):
 
 
 class C10(ExprProp):
-    """Theorems C10_floor/ceil/round(+_char)/builtin_*/arity_*: num-rational's integer algorithms (mirrored in the model) equal the order-theoretic floor, ceiling, round-half-away and round-to-n-digits for every rational; unit carried through; wrong arity is an error. Correspondence on a boundary grid. End to end: `C10_query` (Props/C10Query.lean) — calls written as queries over arbitrary argument expressions. Unified language (Props/UnifiedQuery.lean): `C10_query_unified_full` — floor/ceil/round/round(e, n) over quantity expressions with fact leaves."""
+    """Theorems C10_floor/ceil/round(+_char)/builtin_*/arity_*: num-rational's integer algorithms (mirrored in the model) equal the order-theoretic floor, ceiling, round-half-away and round-to-n-digits for every rational; unit carried through; wrong arity is an error. Correspondence on a boundary grid. End to end: `C10_query` (Props/C10Query.lean) — calls written as queries over arbitrary argument expressions. Unified language (Props/UnifiedQuery.lean): `C10_query_unified_full` — floor/ceil/round/round(e, n) over quantity expressions with fact leaves. Full language (Props/FullQuery.lean): `C10_query_nested` — a call ANYWHERE in an expression keeps the unit and rounds the magnitude."""
     id = "C10"
     needs_knobs = ("builtins",)
-    extra_modules = ["Anything.Props.C10Query", "Anything.Props.UnifiedQuery"]
+    extra_modules = ["Anything.Props.C10Query", "Anything.Props.UnifiedQuery", "Anything.Props.FullQuery"]
     module = "Anything.Props.C10"
     trusted = ["Spec.Arith.floorI/ceilI/roundHalfAway/roundTo are human input (order-theoretic definitions)"]
 
